@@ -14,6 +14,9 @@ Script2 == << F("D1", 0), F("D1", 1), E, Sim(0), PS("D2", 0) >>
 Script3 == << F("D1", 0), <<"Save">>, E, PMo("D2", 0), PMe("D2", 0), <<"Load">>, E, PMo("D2", 0), PMe("D2", 0), Sim(0) >>
 Script4 == << F("D1", 0), <<"Save">>, <<"Load">>, E, PMo("D2", 0), PMe("D2", 0), Sim(0) >>
 Script5 == << F("D2", 0), PS("D2", 0), PS("D1", 0), E, F("D2", 0), PS("D1", 0), E, PS("D2", 0) >>
+PSC(D, s) == <<"PersoScipyCustom", D, s>>
+Script9 == << F("D1", 0), PS("D2", 0), PSC("D2", 0), PS("D2", 0), <<"EstimateFrame">>, E, <<"SimulateTable", 0>>, Sim(0), PSC("D1", 0), PS("D1", 0) >>
+Script10 == << F("D1", 0), PS("D1", 0), E, Sim(0), <<"SimulateTable", 0>>, <<"EstimateFrame">>, PS("D2", 0) >>
 Script7 == << F("D1", 0), PMo("D2", 0), <<"FailedCall", "events_only">>, PMo("D2", 0), <<"FailedCall", "bad_ips">>, E, <<"FailedCall", "extra_feature">>, PMe("D1", 0) >>
 Script8 == << F("D1", 0), PMo("D2", 0), E, PMe("D1", 0) >>
 Script6 == << F("D2", 0), F("D2", 0), <<"BurnRng">>, PS("D2", 0), E, PS("D1", 0) >>
